@@ -846,7 +846,7 @@ class FuncAnalysis:
             if isinstance(p, ast.Attribute) and p.attr == "newaxis":
                 continue
             v = self.ev(p, env)
-            if v.kind in ("nd", "list", "seq"):
+            if v.kind in ("nd", "list", "seq") or (v.kind == "tuple" and v.cls == "arrays"):
                 return False
             if isinstance(p, ast.Compare):
                 return False
@@ -1222,7 +1222,7 @@ class FuncAnalysis:
             self.mutate(a0, f"{name} writes its first argument")
             return IMM
         if base in ("nonzero", "where") and len(argv) == 1:
-            return AV("tuple")
+            return AV("tuple", E, E, E, "arrays")  # a tuple of index ARRAYS: subscripting with it is advanced indexing (copy)
         if base == "unique":
             return AV("nd")  # or a tuple of fresh arrays
         if base == "partial":
